@@ -304,3 +304,41 @@ def receiver_call_sites(prog, body, target, depth=0):
                 if p is not None and not [e for e in p["p"] if e != "*"]:
                     out.append((bi, root_of_ref(body, p["l"]), t.get("line")))
     return out
+
+
+def try_edges(body, call_block):
+    """For `call(..)?` return (switch block, Continue target, Break target), else None (await machinery is not followed)."""
+    t = body.term(call_block)
+    if t["k"] != "call" or t.get("target") is None:
+        return None
+    res_local = t["dest"]["l"]
+    b = t["target"]
+    seen = set()
+    while b is not None and b not in seen:
+        seen.add(b)
+        tt = body.term(b)
+        if tt["k"] == "call":
+            c = tt["f"].get("fn") or ""
+            if c.endswith("Try::branch"):
+                p = op_place(tt["args"][0])
+                if p and _copy_of(body, b, p["l"], res_local):
+                    sb = tt["target"]
+                    sw = body.term(sb)
+                    if sw["k"] == "switch":
+                        cont = brk = None
+                        for v, tgt in sw["targets"]:
+                            if v == "0":
+                                cont = tgt
+                            elif v == "1":
+                                brk = tgt
+                        if brk is None:
+                            brk = sw["otherwise"]
+                        if cont is not None:
+                            return sb, cont, brk
+                return None
+            return None
+        if tt["k"] == "goto":
+            b = tt["target"]
+            continue
+        return None
+    return None
